@@ -9,8 +9,9 @@ Import ListNotations.
 
 Record task := { tparent : nat; trows : list nat; tcols : list nat;
                  no_cols : bool; no_rows : bool; is_first : bool }.
-(* ASum slices: the row groups in increasing label order; weight_i = |slice_i| / |rows| *)
-Inductive akind := ASum (slices : list (list nat)) | AProd | ALeaf.
+(* ASum slices: the row groups in increasing label order; weight_i = |slice_i| / |rows|.
+   AProd parts: the column groups its children are built for (ghost). *)
+Inductive akind := ASum (slices : list (list nat)) | AProd (parts : list (list nat)) | ALeaf.
 Record anode := { akind_of : akind; ascope : list nat; arows : list nat; akids : list nat }.
 Record answer := { zv : list bool; labels : list nat }.
 Record state := { arena : list anode; queue : list task }.
@@ -57,7 +58,7 @@ Section Machine.
   (* learn_naive_factorization: a product over `cols` with one univariate leaf per variable *)
   Definition naive (a : list anode) (cols rows : list nat) : list anode * nat :=
     let b := length a in
-    (a ++ {| akind_of := AProd; ascope := cols; arows := rows; akids := seq (S b) (length cols) |} ::
+    (a ++ {| akind_of := AProd (map (fun s => [s]) cols); ascope := cols; arows := rows; akids := seq (S b) (length cols) |} ::
           map (fun s => {| akind_of := ALeaf; ascope := [s]; arows := rows; akids := [] |}) cols, b).
 
   Definition mk_task (p : nat) (rows cols : list nat) (nc nr fi : bool) : task :=
@@ -80,7 +81,7 @@ Section Machine.
             let b := length a in
             let rem := pickb (tcols t) (zv ans) true in
             let oth := pickb (tcols t) (zv ans) false in
-            let a0 := a ++ [{| akind_of := AProd; ascope := tcols t; arows := trows t; akids := [] |}] in
+            let a0 := a ++ [{| akind_of := AProd [rem; oth]; ascope := tcols t; arows := trows t; akids := [] |}] in
             let (a1, i) := naive a0 rem (trows t) in
             let a2 := add_child a1 b i in
             {| arena := add_child a2 (tparent t) b;
@@ -100,7 +101,7 @@ Section Machine.
             | [_] => {| arena := a; queue := mk_task (tparent t) (trows t) (tcols t) true false false :: q |}
             | _ =>
                 let b := length a in
-                {| arena := add_child (a ++ [{| akind_of := AProd; ascope := tcols t; arows := trows t; akids := [] |}]) (tparent t) b;
+                {| arena := add_child (a ++ [{| akind_of := AProd gs; ascope := tcols t; arows := trows t; akids := [] |}]) (tparent t) b;
                    queue := q ++ map (fun g => mk_task b (trows t) g false false false) gs |}
             end
         end
@@ -127,7 +128,7 @@ Section Machine.
     end.
 
   Definition init (rows cols : list nat) : state :=
-    {| arena := [{| akind_of := AProd; ascope := cols; arows := rows; akids := [] |}];
+    {| arena := [{| akind_of := AProd [cols]; ascope := cols; arows := rows; akids := [] |}];
        queue := [mk_task 0 rows cols false false true] |}.
   Definition run (answers : list answer) (s : state) : state := fold_left step answers s.
   (* root = tmp_node.children[0] *)
